@@ -475,9 +475,11 @@ func runGoFn(c *lib.Ctx) error {
 					ok := agrees(gc.Exp, got, len(gc.Args))
 					if gc.Unspec {
 						alt := agrees(gc.Alt, got, len(gc.Args))
-						if ok {
+						switch {
+						case ok && alt: // the two readings prescribe the same (an earlier check decides)
+						case ok:
 							nilAccepted++
-						} else if alt {
+						case alt:
 							nilRejected++
 						}
 						ok = ok || alt
